@@ -1,6 +1,13 @@
 # Per-property configuration of the runner.
 # corr: list of (sub-command, {tier: number of cases})
 PROPS = {
+    "C04": {
+        "corr": [("values", {"quick": 1500, "thorough": 30000}), ("strvals", {"quick": 3000, "thorough": 60000})],
+        "trusted_base": [
+            "modelled, not verified: YAML/JSON decoding of value files (the harness hands decoded trees to the model), the key=value form of --set-json (encoding/json decoder), copystructure deep copies (the model is value-semantic; aliasing is observed by before/after snapshots in the correspondence, not proved)",
+        ],
+        "assumptions": ["numbers are opaque atoms in the model", "strings.EqualFold modelled for the words true/false/null/0 (ASCII fold plus U+017F)"],
+    },
     "C08": {
         "corr": [("manifests", {"quick": 1500, "thorough": 30000})],
         "trusted_base": [
